@@ -25,6 +25,29 @@ _REAL_TIME = _time_module.time
 _REAL_TIME_NS = _time_module.time_ns
 
 
+_WRAP = {"frozen": None}
+
+
+def install_time_wrapper():
+    """Replace time.time / time.time_ns (attributes of the time module) by pass-through wrappers that
+    can be frozen.  Done before the tree under test is imported, so that references the code
+    captures at import (class attributes, default arguments, functools.partial) are the wrappers."""
+    if getattr(_time_module.time, "_verif_wrapper", False):
+        return
+
+    def time():
+        f = _WRAP["frozen"]
+        return _REAL_TIME() if f is None else f
+
+    def time_ns():
+        f = _WRAP["frozen"]
+        return _REAL_TIME_NS() if f is None else int(f * 1000000000)
+    time._verif_wrapper = True
+    time_ns._verif_wrapper = True
+    _time_module.time = time
+    _time_module.time_ns = time_ns
+
+
 class Budget(BaseException):
     """Raised inside the code under test when the step budget is exhausted."""
 
@@ -80,19 +103,23 @@ class OwnedClock:
       (under any alias), the ``datetime`` module, the ``time`` module, ``time.time`` or
       ``time.time_ns`` is replaced for the duration;
     * ``sys.modules["datetime"]`` / ``["time"]`` are proxies for the duration, which covers imports
-      executed inside functions.
+      executed inside functions;
+    * ``time.time`` / ``time.time_ns`` themselves are frozen wrappers (``install_time_wrapper``), so a
+      reference to them captured at import time is owned too.  A captured ``datetime.now`` cannot be
+      owned: ``CertImpl.settle_clock`` notices and moves the whole check to the real present.
 
     The attributes of the real ``datetime`` / ``time`` modules are never touched, and
     ``warm_up_extensions`` makes the extension modules in use resolve (and cache) the real
     ``datetime.datetime`` before the first context is entered.  A clock value captured before the
     context is entered (at import time) is, rightly, not covered."""
 
-    def __init__(self, prefix, now, tz=None):
+    def __init__(self, prefix, now, tz=None, owned=True):
         """tz: POSIX TZ string (e.g. "VRF3" = UTC-3, "VRF-5:30" = UTC+5:30) put in force for the
         duration with time.tzset(), so that the naive local time the code may ask for
         (datetime.now(), today(), fromtimestamp(), time.localtime()) differs from UTC."""
         self.prefix, self.now, self.saved, self.saved_modules = prefix, now, [], []
         self.tz, self.old_tz = tz, None
+        self.owned = owned and now is not None     # otherwise only the time zone is put in force
 
     def _set(self, obj, name, val):
         self.saved.append((obj, name, obj.__dict__[name]))
@@ -104,8 +131,11 @@ class OwnedClock:
             self.old_tz = os.environ.get("TZ", "")
             os.environ["TZ"] = self.tz
             _time_module.tzset()
+        if not self.owned:
+            return self
         fixed = fixed_datetime_class(now)
         ts = now.timestamp()
+        _WRAP["frozen"] = ts
 
         def fake_time():
             return ts
@@ -116,6 +146,7 @@ class OwnedClock:
         t_mod = _ModuleProxy(_time_module, time=fake_time, time_ns=fake_time_ns)
         table = ((_REAL_DATETIME, fixed), (_datetime_module, dt_mod), (_time_module, t_mod),
                  (_REAL_TIME, fake_time), (_REAL_TIME_NS, fake_time_ns))
+        # (the frozen wrappers installed by install_time_wrapper need no replacing)
         for mod in list(sys.modules.values()):
             f = getattr(mod, "__file__", None)
             if not f or not f.startswith(self.prefix):
@@ -132,6 +163,7 @@ class OwnedClock:
         return self
 
     def __exit__(self, *a):
+        _WRAP["frozen"] = None
         for name, old in self.saved_modules:
             if old is None:
                 sys.modules.pop(name, None)
@@ -204,7 +236,9 @@ class CertImpl:
         except ImportError:
             pass
         warm_up_extensions()
+        install_time_wrapper()
         import admin.certificate as AC      # the module the admin tools import from
+        self.owned = True
         self.AC = AC
         self.prefix = os.path.join(env.MIDDLEWARE, "")
         self.max_lines_seen = 0
@@ -287,7 +321,33 @@ class CertImpl:
             pem, self.AC.HSMCertificateV2.ROOT_ELEMENT, self.AC.HSMCertificateV2.ROOT_ELEMENT)
 
     def clock(self, now, tz=None):
-        return OwnedClock(self.prefix, now, tz)
+        return OwnedClock(self.prefix, now, tz, owned=self.owned)
+
+    def settle_clock(self, doc, root_pem, inside, target="quote"):
+        """doc: a genuine chain valid at `inside`, an instant far from the real present.  If the code
+        under test accepts it under the owned clock, it reads doors the harness owns (exact instants
+        can be probed).  Otherwise it reads a clock the harness cannot reach (a bound method of the
+        real datetime class captured at import, an extension module's notion of now) or a value
+        frozen at import: the check then works at the REAL present - validity periods are generated
+        around it (some beginning after the tree under test was imported), instants are compared
+        with margins, time zones are still put in force.  -> True when owned."""
+        got = self.run_v2(doc, root_pem, inside)
+        vd = verdict(got[1].get(target)) if got[0] == "result" and hasattr(got[1], "get") else None
+        self.owned = bool(vd and vd[0] == "ok")
+        return self.owned
+
+    @staticmethod
+    def present():
+        """The real present (UTC), whatever wrappers are in force."""
+        return _REAL_DATETIME.fromtimestamp(_REAL_TIME(), _datetime_module.timezone.utc)
+
+    def fresh_reference_instant(self):
+        """A whole second of the real present that begins after this call returns (hence after the
+        tree under test was imported)."""
+        t = int(_REAL_TIME()) + 1
+        while _REAL_TIME() < t + 0.05:
+            _time_module.sleep(0.05)
+        return _REAL_DATETIME.fromtimestamp(t, _datetime_module.timezone.utc)
 
     # ---- whole runs ---------------------------------------------------------------------
     def _load(self, doc, guarded):
